@@ -10,6 +10,8 @@ mod exec5;
 mod exec6;
 mod exec7;
 mod exec8;
+mod exec9;
+mod httpd;
 mod alloc;
 mod sources;
 mod gen;
